@@ -35,7 +35,9 @@ func VP_C08_Codec() {
 	d, err := c.Decode(ecopy)
 	vp.Assert(err == nil, "decode-error")
 	vp.Assert(len(d) == n, "decode-length")
-	vp.Assert(vp.BytesEq(d, orig), "decode-bytes")
+	if vp.Param("nobytes") == 0 {
+		vp.Assert(vp.BytesEq(d, orig), "decode-bytes")
+	}
 	vp.Assert(vp.BytesEq(x, orig), "input-unmodified")
 	vp.Reach("done")
 }
